@@ -182,9 +182,23 @@ func runSolvers(script string, dir, base string, timeoutS int, needAgree bool, w
 		secs   float64
 	}
 	ch := make(chan one, len(solvers))
-	for _, s := range solvers {
+	for si, s := range solvers {
 		s := s
+		// staged portfolio: z3-new and cvc5 start at once, the other configurations only if no answer came quickly
+		delay := time.Duration(0)
+		if s.name == "z3" || s.name == "z3-new-ematch" {
+			delay = 1500 * time.Millisecond
+		}
+		_ = si
 		go func() {
+			if delay > 0 {
+				select {
+				case <-ctx.Done():
+					ch <- one{s.name, "cancelled", "", 0}
+					return
+				case <-time.After(delay):
+				}
+			}
 			t0 := time.Now()
 			argv := s.args(file, timeoutS)
 			cmd := exec.CommandContext(ctx, argv[0], argv[1:]...)
@@ -223,9 +237,10 @@ func runSolvers(script string, dir, base string, timeoutS int, needAgree bool, w
 				// disagreement between solvers: report as error, never as success
 				return solveResult{result: "disagree", solver: best.solver + "/" + r.solver, out: best.out + "\n---\n" + r.out, secs: r.secs, all: all}
 			}
-			if !needAgree || agree >= 2 {
+			if !needAgree {
 				break
 			}
+			// thorough tier: let every solver finish (or time out); any disagreement is reported above
 		}
 	}
 	cancel()
